@@ -85,6 +85,29 @@ long __wrap_syscall(long number, ...)
     if (active && number == SYS_getrandom) return os_random("syscall", (void *)a[0], (size_t)a[1], 0);
     return __real_syscall(number, a[0], a[1], a[2], a[3], a[4], a[5]);
 }
+/* Whatever clock the source might consult jumps forward by ten seconds at every reading while a request is active:
+ * the result of a request must not depend on how long the operating system took to answer. */
+#include <sys/time.h>
+#include <time.h>
+static long fake_now = 1700000000;
+int __real_gettimeofday(struct timeval *tv, void *tz);
+int __wrap_gettimeofday(struct timeval *tv, void *tz)
+{
+    if (!active) return __real_gettimeofday(tv, tz);
+    fake_now += 10; if (tv) { tv->tv_sec = fake_now; tv->tv_usec = 0; } return 0;
+}
+int __real_clock_gettime(clockid_t id, struct timespec *ts);
+int __wrap_clock_gettime(clockid_t id, struct timespec *ts)
+{
+    if (!active) return __real_clock_gettime(id, ts);
+    fake_now += 10; if (ts) { ts->tv_sec = fake_now; ts->tv_nsec = 0; } return 0;
+}
+time_t __real_time(time_t *t);
+time_t __wrap_time(time_t *t)
+{
+    if (!active) return __real_time(t);
+    fake_now += 10; if (t) *t = fake_now; return fake_now;
+}
 int __real_open(const char *path, int flags, ...);
 int __wrap_open(const char *path, int flags, ...)
 {
